@@ -69,6 +69,7 @@ async function main() {
     }
     const fd = fs.openSync(out, 'w');
     let sampled = 0;
+    const sigSeen = new Map();
     for (const [gid, g] of groups) {
       if (!g.meta) continue;
       const records = {};
@@ -87,7 +88,11 @@ async function main() {
         if (v.verdict === 'violated' || (v.verdict === 'held' && sampled < 6 && v.nontrivial !== false)) {
           if (v.verdict === 'held') sampled++;
           v.case = { id: c.id, src: c.src, syntax: c.syntax, options: c.options, options_text: c.options_text };
-          if (v.verdict === 'violated') { v.group = g.meta; v.final = (records[v.vid] || {}).final; }
+          if (v.verdict === 'violated') {
+            const n = sigSeen.get(v.sig) ?? 0;
+            sigSeen.set(v.sig, n + 1);
+            if (n < 2) { v.group = g.meta; v.final = (records[v.vid] || {}).final; } else delete v.case;
+          }
         }
         fs.writeSync(fd, JSON.stringify(v) + '\n');
       }
